@@ -86,7 +86,9 @@ with canon_items (it : items) : items :=
 
 Definition sx_flags (sz : sizes) (v : value) : list sx :=
   [sx_bool (wfc_value as_names sz v); sx_bool (wfs_value v); sx_bool (has_scope_value v);
-   sx_bool (names_ok_value from_names v); sx_N (size_value v)].
+   sx_bool (names_ok_value from_names v); sx_N (size_value v);
+   (* every literal is accepted or is one of the five listed ones *)
+   sx_bool (names_ok_value (from_names ++ known_missing_names) v)].
 
 Definition sx_entry (sz : sizes) (kv : bytes * value) : sx :=
   XL (XS (fst kv) :: XS (ser_entry kv) :: sx_flags sz (snd kv) ++ [XS (ser_entry (fst kv, canon_value (snd kv)))]).
